@@ -317,7 +317,11 @@ fn gen_atom(ch: &mut Choices, flags: &AlFlags, depth: usize) -> Re {
             esc: true,
         },
         4 => {
-            let mut opts = vec!["\\n", "\\t", "\\x61", "\\d", "\\w", "\\s", "\\D", "\\x20", "\\u00e9"];
+            // hex escapes in all three forms, digits in either case, first digit a letter or not
+            let mut opts = vec![
+                "\\n", "\\t", "\\x61", "\\d", "\\w", "\\s", "\\D", "\\x20", "\\u00e9", "\\xE9", "\\xe9", "\\u00E9", "\\u6F22", "\\u6f22", "\\uF900", "\\U00006F22", "\\U000000e9", "\\x7A",
+                "\\xAB", "\\uffe9",
+            ];
             if flags.eff_octal() {
                 opts.push("\\141");
             }
